@@ -38,7 +38,7 @@ fn gen_case(t: &mut Tape) -> TermCase {
         t,
         &table,
         pool.names.len(),
-        &TreeCfg { max_operands: 40, lit_pct: 15, unary_pct: 8, shape_weights: [5, 3, 1] },
+        &TreeCfg { max_operands: 40, lit_pct: 15, unary_pct: 8, shape_weights: [5, 3, 1], ..TreeCfg::default() },
     );
     finish_case(t, table, pool, tree, &RenderCfg { brace_pct: 45, redundant_paren_pct: 4, ..RenderCfg::default() })
 }
